@@ -31,6 +31,9 @@ RULE += (
          'Also: returns through finally parts; two-preemption sweeps '
          'at block-tag lines and in the call path (DT_String.py) of a '
          'template rendered once before. ')
+RULE += (
+         'Tainted and plain threads; expression-typed raise failing in '
+         'some threads. ')
 ASSUMPTIONS = [
     'preemption happens at Python line granularity inside the package; '
     'races inside one line or inside C code of dependencies are not explored',
